@@ -128,13 +128,13 @@ theorem carry_wellformed (w : Writer) : (carryOf w).1 < 2 ^ (carryOf w).2 ∧ (c
 into `tiny_buf_`, the pending bytes fit behind it and there is no carry next to them; a null
 cursor means nothing pending; no carry inside a metadata body — holds after initialisation and is
 preserved by EVERY call (accepted or refused) and by `take_output`.  Hypotheses: the state
-invariant, a carry of at most 14 bits (`carry_bound_invariant` of C20), bounded oracle answers. -/
-theorem tiny_buf_invariant {o : Oracle} {B M fuel op cap : Nat} {input : Bytes} {s s' : St} {io' : Io} {r : Bool}
-    (hB : OracleBounded o B) (hM : (14 + 176 + B) / 8 ≤ M)
+invariant and a carry of at most 14 bits (`carry_bound_invariant` of C20) — whatever the oracle
+answers (the former hypothesis `OracleBounded` is gone). -/
+theorem tiny_buf_invariant {o : Oracle} {fuel op cap : Nat} {input : Bytes} {s s' : St} {io' : Io} {r : Bool}
     (hop : op ≤ 3) (hI : Inv s) (hw : s.inputPos + input.length < two64) (hl : s.lastBytesBits ≤ 14)
     (hT : TinyOK s)
     (h : compressStream o fuel s op input cap = .ok (s', io', r)) : TinyOK s' :=
-  tinyOK_call hB hM hop hI hw hl hT h
+  tinyOK_call hop hI hw hl hT h
 
 theorem tiny_buf_invariant_initial {s : St} (h : IsFresh s) : TinyOK (ensureInitialized s) := tinyOK_fresh h
 
@@ -201,15 +201,14 @@ theorem fast_path_storage_suffices {o : Oracle} (hO : OracleOK o) {op : Nat} {s 
 after every `compress_stream` call the pending bytes lie inside the buffer `next_out_` points into —
 `storage_` or the 16-byte `tiny_buf_` — so `take_output` cannot slice out of range.  The invariants
 it rests on are re-established with it. -/
-theorem out_ok_after_call {o : Oracle} {B M fuel op cap : Nat} {input : Bytes} {s s' : St} {io' : Io} {r : Bool}
-    (hB : OracleBounded o B) (hM : (14 + 176 + B) / 8 ≤ M)
+theorem out_ok_after_call {o : Oracle} {fuel op cap : Nat} {input : Bytes} {s s' : St} {io' : Io} {r : Bool}
     (hop : op ≤ 3) (hI : Inv s) (hw : s.inputPos + input.length < two64) (hl : s.lastBytesBits ≤ 14)
     (hT : TinyOK s) (hS : StoreOK s)
     (h : compressStream o fuel s op input cap = .ok (s', io', r)) :
     PendingInBuffer s' ∧ TinyOK s' ∧ StoreOK s' ∧ s'.lastBytesBits ≤ 14 := by
-  have hT' := tinyOK_call hB hM hop hI hw hl hT h
+  have hT' := tinyOK_call hop hI hw hl hT h
   have hS' := storeOK_call hop (Or.inr hI) hw hS h
-  exact ⟨pendingInBuffer_of hS' hT', hT', hS', compressStream_lbb hB hM hop hI hw hl h⟩
+  exact ⟨pendingInBuffer_of hS' hT', hT', hS', compressStream_lbb hop hI hw hl h⟩
 
 /-- the same right after initialisation -/
 theorem out_ok_initial {s : St} (h : IsFresh s) :
